@@ -82,6 +82,7 @@ func c04(c *core.Ctx, r *core.Report) {
 	r.Explain("R04.pair: in CodeIdentifier.equalOnNonEmptyFields every conjunct pairs the compiled regex of field F with candidate field F and the emptiness test of specification field F (both in the regex arm and the plain arm); Kind is compared by equality. R04.compile: every regex slot is compiled by regexp.Compile from the like-named raw field (no anchoring added) and used with MatchString; the positional literal fills each slot with its own regex. R04.forms: every function that classifies call instructions against code identifiers accepts the three call forms (Call, Go, Defer), and entry-point scanning does not go through CallInstruction.Value() (nil for go/defer). R04.uses: the classifiers (IsEntrypointNode, IsMatchingCodeIDWithCallee, isMatchingCodeID and their helpers) never consult the Referrers of the instruction: identification is a function of the instruction and the specification, not of how the value is used. R04.kinds: IsEntrypointNode has an arm for each documented identifier kind (call, field read x2, alloc, field store with kind \"store\", channel receive with kind \"channel receive\"), the kind strings agreeing with the documentation.")
 	r.NotDecided("matching over all programs x all RE2 patterns; callee resolution (C12).")
 	c04pairSSA(c, r)
+	c04matchonly(c, r)
 	c04compileSSA(c, r)
 	c04forms(c, r)
 	c04kinds(c, r)
